@@ -475,6 +475,30 @@ func jsonUnmarshal(m *Machine, args []Value, g *Term, site ssa.Instruction) Valu
 	if !types.Identical(st, et) {
 		panic(notEncoded("json round trip between different types %v -> %v", st, et))
 	}
+	// decoding into a pointer variable that already points somewhere writes INTO the existing
+	// pointee (encoding/json allocates only for nil pointers): whoever shares that object sees
+	// the decoded value. Modelled one level deep; fields the document omits are overwritten too
+	// (the documents here come from Marshal of the same type, so only omitempty fields differ).
+	if ept, ok := et.Underlying().(*types.Pointer); ok {
+		if cur, ok := m.load(p, g, site).(*PtrV); ok && cur != nil && len(cur.Alts) > 0 {
+			sp, _ := src.(*PtrV)
+			if sp != nil && len(sp.Alts) > 0 {
+				var doc Value = m.zero(ept.Elem())
+				for i := len(sp.Alts) - 1; i >= 0; i-- {
+					doc = mergeValue(sp.Alts[i].G, getPath(sp.Alts[i].Obj.val, sp.Alts[i].Path), doc)
+				}
+				srcNonNil := Not(isNilPtr(sp))
+				nonNil := Not(isNilPtr(cur))
+				// existing pointee(s) receive the decoded struct
+				m.store(cur, m.jsonCopy(doc, ept.Elem(), false), And(g, nonNil, srcNonNil), site)
+				// a nil target gets a fresh object as before; "null" sets the pointer to nil
+				fresh := m.jsonCopy(src, et, false)
+				m.store(p, mergeValue(nonNil, mergeValue(srcNonNil, cur, &PtrV{}), fresh), g, site)
+				m.stubsUsed["json.Unmarshal into a non-nil pointer decodes into the existing object"]++
+				return errNil()
+			}
+		}
+	}
 	m.store(p, m.jsonCopy(src, et, false), g, site)
 	return errNil()
 }
